@@ -54,12 +54,11 @@ func (n *VPLSNLRI) decodeFromBytes(data []byte, options ...*MarshallingOption) e
 	if len(data) < length+2 {
 		return NewMessageError(BGP_ERROR_UPDATE_MESSAGE_ERROR, BGP_ERROR_SUB_MALFORMED_ATTRIBUTE_LIST, nil, "Not all VPLS NLRI bytes available")
 	}
-	if length == 12 { // BGP-AD
-		// BGP-AD is not supported yet
-		return nil
-	}
-	if len(data) < 19 {
-		return NewMessageError(BGP_ERROR_UPDATE_MESSAGE_ERROR, BGP_ERROR_SUB_MALFORMED_ATTRIBUTE_LIST, nil, "Not all VPLS NLRI bytes available")
+	// Only the 17-byte VPLS-BGP form can be represented by VPLSNLRI (Len() is
+	// fixed at 2+17). The 12-byte BGP-AD form is not supported yet: accepting
+	// it left the route distinguisher unset and mis-framed the NLRI that follow.
+	if length != 17 {
+		return NewMessageError(BGP_ERROR_UPDATE_MESSAGE_ERROR, BGP_ERROR_SUB_MALFORMED_ATTRIBUTE_LIST, nil, fmt.Sprintf("unsupported VPLS NLRI length %d", length))
 	}
 	// VPLS-BGP
 	n.rd = GetRouteDistinguisher(data[2:10])
